@@ -155,6 +155,16 @@ func TestC09(t *testing.T) {
 						go func() { defer wg.Done(); addErr(pr.dialOnce(side, id)) }()
 					}
 					wg.Wait()
+				case "matched-then-dial-again":
+					// (mux) an accept that is already waiting is met by its dial; then the same id is dialled a
+					// second time and nobody accepts: that dial must fail within the window
+					var wg sync.WaitGroup
+					wg.Add(1)
+					go func() { defer wg.Done(); addErr("accept: " + pr.acceptOnce(other(side), id, 0)) }()
+					time.Sleep(200 * time.Millisecond)
+					addErr("dial1: " + pr.dialOnce(side, id))
+					wg.Wait()
+					addErr("dial2: " + pr.dialOnce(side, id))
 				case "dial-timeout-then-accept":
 					addErr(pr.dialOnce(side, id))
 					if pr.kind == "mux" {
